@@ -8,7 +8,7 @@ use crate::spec::*;
 const SMALL_CONN: u32 = 9;
 
 fn scn(name: &str, win: u32, conn_win: u32, streams: Vec<St>) -> Scn {
-    Scn { name: name.to_string(), win, conn_win, srv_win: None, srv_conn_win: None, streams, resets: true, reset_by_drop: false, core: false }
+    Scn { name: name.to_string(), win, conn_win, srv_win: None, srv_conn_win: None, streams, resets: true, reset_by_drop: false, core: false, one_at_a_time: false }
 }
 
 fn one(name: &str, win: u32, st: St) -> Scn {
@@ -183,6 +183,15 @@ pub fn all() -> Vec<Scn> {
     v.push(scn("late-second-while-first-stalled-w16384", 16_384, 65_535, vec![St::get(Bytes(40_000)).stalled(), St::get(Bytes(45)).start(3)]));
     v.push(scn("late-second-while-first-stalled-w7", 7, 65_535, vec![St::get(Bytes(30)).stalled(), St::get(Bytes(30)).start(3), St::head(Bytes(30)).start(4)]));
     v.push(scn("three-yielding-handlers-w7", 7, 65_535, vec![St::get(Bytes(20)).yields(2), St::get(Bytes(20)), St::get(BodyStream(vec![D(9), Pend, D(9)])).yields(1)]));
+
+    // a service that takes one call at a time, busy with a handler that waits for the other stream:
+    // the connection (frames, window updates) must be driven all the same
+    for (name, win, big) in [("busy-service-big-and-waiting-w16384", 16_384u32, 40_000usize), ("busy-service-big-and-waiting-w7", 7, 30)] {
+        let mut s = scn(name, win, 65_535, vec![St::get(Bytes(big)), St::get(Bytes(10)).wait_for(0).start(1)]);
+        s.one_at_a_time = true;
+        s.resets = false;
+        v.push(s);
+    }
 
     // ---- F. the receive direction: uploads against the server's windows
     v.push(scn("up100-srv16-all-echo-w7", 7, 65_535, vec![St::post(100, 16_384, Read::All, Echo)]).srv(16, None).core());
